@@ -385,17 +385,17 @@ def run_case(seed, tier, rec, st):
                         okw["omit_none"] = kw["omit_none"]
                     if "by_alias" in kw:
                         okw["serialize_by_alias"] = kw["by_alias"]
-                    def expectation(quirk_f25=False, x=x, okw=okw):
+                    def expectation(quirk_f25=False, x=x, okw=okw, codec_default=None):
                         # F25 mechanism: with a keyword flag enabled and the keyword not passed, the outer
                         # method forwards its own compiled default, which shadows the call dialect's option
-                        ch_on = ch_ba = [call_d, dvec, cfg]
+                        ch_on = ch_ba = [call_d, dvec, cfg, codec_default]
                         if quirk_f25 and call_d is not None:
                             if "TO_DICT_ADD_OMIT_NONE_FLAG" in flags and "omit_none" not in okw:
                                 ch_on = [None, dvec, cfg]
                             if "TO_DICT_ADD_BY_ALIAS_FLAG" in flags and "serialize_by_alias" not in okw:
                                 ch_ba = [None, dvec, cfg]
                         e_on = eff("omit_none", okw, ch_on)
-                        e_od = eff("omit_default", {}, [call_d, dvec, cfg])
+                        e_od = eff("omit_default", {}, [call_d, dvec, cfg, codec_default])
                         e_ba = eff("serialize_by_alias", okw, ch_ba)
                         # what reaches the nested class: keyword values only if both sides enabled the flag
                         nkw = {}
@@ -427,7 +427,7 @@ def run_case(seed, tier, rec, st):
                                     skw["omit_none"] = e_on
                                 if "TO_DICT_ADD_BY_ALIAS_FLAG" in flags:
                                     skw["serialize_by_alias"] = e_ba
-                                val = dict(expectation(quirk_f25, x=raw, okw=skw)[0])
+                                val = dict(expectation(quirk_f25, x=raw, okw=skw, codec_default=codec_default)[0])
                             elif f["kind"] == "enum":
                                 val = raw.value
                             else:
@@ -455,6 +455,23 @@ def run_case(seed, tier, rec, st):
                         if not sampled and (e_on or e_od or e_ba) and len(exp) >= 2:
                             sampled = True
                             rec.sample({"source": src, "kw": repr(kw), "instance": common.short(x, 200), "output": common.short(got, 200)})
+                        if kw == {} and row is value_rows[0] and idx % 4 == 0 and not any(f["kind"] in ("nested", "opt_nested") for f in schema["fields"]):
+                            # codec objects for the same class, first without then with a default dialect (the LOWEST level):
+                            # each has its own compiled packer
+                            from mashumaro.codecs.basic import BasicEncoder
+                            for cd_name, cd in ((None, None), ("CallD", callvec)):
+                                rec.evaluation()
+                                try:
+                                    cgot = BasicEncoder(M, **({"default_dialect": CallD} if cd else {})).encode(x)
+                                except Exception as e:
+                                    cgot = {"EXC": f"{type(e).__name__}: {e}"[:150]}
+                                cexp = expectation(codec_default=cd)[0]
+                                if same_items(list(cgot.items()), cexp):
+                                    rec.count("agree")
+                                    rec.count("codec_default_dialect_agree")
+                                else:
+                                    rec.violation("projection-mismatch:codec-object", {"source": src, "default_dialect": cd, "observed": common.short(list(cgot.items()), 400),
+                                                  "expected": common.short(cexp, 400)}, dict(facts, codec_default_dialect=bool(cd)))
                     else:
                         if same_items(list(got.items()), expectation(quirk_f25=True)[0]):
                             facts["explained_by"] = "F25"
